@@ -513,6 +513,44 @@ func c17GenNonZero(c *eng.Ctx) {
 				c.Check(isC && v >= 1, "R-C17-3", f, in.Pos(), "initial kv.gen in "+f.Name(), "an opened database has a non-zero write generation (0 is the task's 'never uploaded' marker)", "gen = "+eng.ValStr(g))
 				return
 			}
+			// (a constructor helper answering the object as it is: judged where
+			// its callers finish the construction)
+			if freshCtor(f) {
+				nc := 0
+				for _, e := range c.P.CallGraph().CallersOf(f) {
+					call, isCall := e.Site.(*ssa.Call)
+					if !isCall {
+						continue
+					}
+					nc++
+					done := ""
+					for _, rf := range *call.Referrers() {
+						fa, isFA := rf.(*ssa.FieldAddr)
+						if !isFA {
+							continue
+						}
+						if fr, isF := eng.FieldOfAddr(fa); !isF || !isKVRole(c.P, fr, "gen") {
+							continue
+						}
+						for _, st := range *fa.Referrers() {
+							if s2, isSt := st.(*ssa.Store); isSt && s2.Addr == ssa.Value(fa) && s2.Block() == call.Block() {
+								if v, isC := eng.ConstInt(s2.Val); isC && v >= 1 {
+									done = "gen set"
+								}
+							}
+						}
+					}
+					for _, s := range k.saveCalls(e.Caller) {
+						if len(s.Call.Args) > 0 && eng.Origin(s.Call.Args[0]) == ssa.Value(call) {
+							done = "saved"
+						}
+					}
+					c.Check(done != "", "R-C17-3", e.Caller, call.Pos(), "initial kv.gen in "+e.Caller.Name(), "an opened database has a non-zero write generation: the caller of the constructor helper sets it to a constant >= 1 or saves the new database", "gen is 0 after "+eng.CallStr(&call.Call))
+				}
+				if nc > 0 {
+					return
+				}
+			}
 			// gen left 0: must be followed by a save (which bumps it) before the kv is returned
 			saved := false
 			for _, s := range k.saveCalls(f) {
